@@ -217,6 +217,19 @@ def small_doc(k, sel, b, tag):
     return d
 
 
+def merge_twice(k1, k2):
+    """loading does not alias or mutate the parsed documents: merging the SAME document objects twice gives the same
+    model both times, and the documents are unchanged afterwards"""
+    d1, d2 = small_doc(k1, 1, 6, "A"), small_doc(k2, 1, 6, "B")
+    s1, s2 = _copy(d1), _copy(d2)
+    m1 = model.create_lsp_model([d1, d2])
+    r1 = readback(m1)
+    m2 = model.create_lsp_model([d1, d2])
+    r2 = readback(m2)
+    alone = readback(model.LSPModel(**d1))
+    return d1 == s1 and d2 == s2 and r1 == r2 and alone == normal(s1)
+
+
 # ---------------------------------------------------------------- equality
 def eq_same(k, sel, b):
     d = small_doc(k, sel, b, "A")
